@@ -145,13 +145,43 @@ Fixpoint fetch_plans (s : store) (ids : list N) : option (list plan) :=
      `for _, plan := range req.Data.plans { e.runPlan(ctx, plan) }`: the result's second component is the
      list of ids handed to runPlan (each gets a waiter, which is how Wait learns the id, and is run from
      sm.Recovery because its status is Running). *)
+(* the state chain from fetchPlans on, for the ids Search returned *)
+Definition select_from (now stamp maxAge : Z) (s : store) (ids : list N) : store * list N :=
+  match fetch_plans s ids with
+  | None => (s, [])
+  | Some plans =>
+      let aged := filter (stale now maxAge) plans in
+      let live := filter (fun p => negb (stale now maxAge p)) plans in
+      (aged_out stamp aged s, map pid live)
+  end.
+
 Definition select (now stamp maxAge : Z) (recovery : bool) (s : store) : store * list N :=
-  if recovery then
-    match fetch_plans s (search_running s) with
-    | None => (s, [])
-    | Some plans =>
-        let aged := filter (stale now maxAge) plans in
-        let live := filter (fun p => negb (stale now maxAge p)) plans in
-        (aged_out stamp aged s, map pid live)
-    end
-  else (s, []).
+  if recovery then select_from now stamp maxAge s (search_running s) else (s, []).
+
+(* ---- back ends with a separate search index (storage.Recovery) ----
+   A Vault may keep a search index that is not written atomically with the plan rows (cosmosdb): after a
+   crash the index can still list as Running a plan whose row is already terminal.  Such a Vault
+   implements storage.Recovery, "a Vault that must do some recovery operation before it can be used after
+   a failure"; its Recovery() repairs the index.  coercion.New:
+       if r, ok := store.(storage.Recovery); ok { r.Recovery(ctx) }      -- FIRST
+       ... exec, err := execute.New(ctx, store, reg, ws.execOptions...)   -- recovery of plans
+   [v_stale] are the ids of such stale index entries; Search(Running) on the unrepaired Vault returns them
+   after the genuinely Running plans.  filterPlans / agedOut / runPlan do not look at the status of what
+   Search returned: an entry that gets that far is aged out or run (from sm.Start, its status not being
+   Running). *)
+Record vault := { v_plans : store; v_stale : list N }.
+
+Definition repair_index (v : vault) : vault := {| v_plans := v_plans v; v_stale := [] |}.
+
+Definition search_index (v : vault) : list N := search_running (v_plans v) ++ v_stale v.
+
+Definition select_vault (now stamp maxAge : Z) (recovery : bool) (v : vault) : store * list N :=
+  if recovery then select_from now stamp maxAge (v_plans v) (search_index v) else (v_plans v, []).
+
+(* coercion.New on a Vault; [implements] = the Vault implements storage.Recovery *)
+Definition open_workstream (now stamp maxAge : Z) (recovery implements : bool) (v : vault) : store * list N :=
+  select_vault now stamp maxAge recovery (if implements then repair_index v else v).
+
+(* the seeded change C11-d: Recovery() only after execute.New *)
+Definition open_workstream_late (now stamp maxAge : Z) (recovery : bool) (v : vault) : store * list N :=
+  select_vault now stamp maxAge recovery v.
